@@ -52,7 +52,10 @@ def separate (a : Body α) (X : XT α) (o : Body α) : Option (Body α) :=
   if o.mass = 0 ∧ o.inertia = M3.zero then some a
   else
     let new_mass := a.mass - o.mass
-    if new_mass = 0 then none
+    if new_mass = 0 then
+      -- massless remainder: the inertia left about the origin
+      some ⟨0, V3.zero, (RBI.ofMassComInertiaC a.mass a.com a.inertia).Imat
+              - transformInertiaToBodyFrame X o, false⟩
     else
       let other_com := X.E.tmulVec o.com + X.r
       let new_com := (1 / new_mass) * (a.mass * a.com - o.mass * other_com)
